@@ -162,7 +162,10 @@ theorem C13_gen : Gen.handshakeAnswerHandlers =
       ["\"CEA\"=handleCEA(cli.Handler,nil)", "\"DWA\"=handshakeOK(handleDWA(cli.Handler,nil))"] ∧
     Gen.capDwac = 1 ∧ Gen.dwrDrainsFirst = true ∧ Gen.dwaSendNonBlocking = true ∧
     Gen.dwrMakeDWR = ([], ["cli.makeDWR(osid)"]) ∧ Gen.dwrWrites = ["m.WriteToStream(c,cli.WatchdogStream)"] ∧
-    Gen.dwrCloses = (0, 1) ∧ Gen.dwrLoopCond = "(i<((int(cli.MaxRetransmits)+1)))" := by decide
+    Gen.dwrCloses = (0, 1) ∧ Gen.dwrLoopCond = "(i<((int(cli.MaxRetransmits)+1)))" ∧
+    -- one watchdog cycle per WatchdogInterval; each DWR waits RetransmitInterval for its answer
+    Gen.clientTimers.filter (fun t => t.1 ≠ "handshake") =
+      [("watchdog", "cli.WatchdogInterval"), ("dwr", "cli.RetransmitInterval")] := by decide
 
 /-- non-vacuity: budget 1; first cycle answered early (before the select), second cycle
     answered on the retransmission, third cycle silent: closed after two DWRs -/
